@@ -9,6 +9,6 @@ if [ "$mode" = revert ]; then
 else
   git -C $wt apply $what || { echo "apply failed"; git -C /repo worktree remove --force $wt; exit 2; }
 fi
-cd /verif && VERIF_REPO=$wt ./check $prop --runs $runs 2>&1 | grep -E "^(VIOLATION|  class|$prop|NOTE|INCON)" | sed 's/replay=.*//' | sort | uniq -c | sort -rn | head -${5:-8}
+cd /verif && VERIF_REPO=$wt ./check $prop --runs $runs 2>&1 | grep -a -E "^(VIOLATION|  class|$prop|NOTE|INCON)" | sed 's/replay=.*//' | sort | uniq -c | sort -rn | head -${5:-8}
 git -C /repo worktree remove --force $wt
 rm -f /verif/.build/worker-$(python3 -c "import hashlib;print(hashlib.sha1(b'$wt').hexdigest()[:8])")*.test /verif/.build/go-*.mod /verif/.build/go-*.sum
